@@ -126,7 +126,7 @@ def gen_history(seed, long=False):
         # granularity (both are acknowledged before anything crashes)
         # ... or two run-step requests of the SAME instance (each is served or refused as locked; what was served is durable)
         cand = [n for n in range(len(ops) - 1) if ops[n]["op"] in ("step", "steps") and ops[n + 1]["op"] in ("step", "steps")
-                and (ops[n]["inst"] != ops[n + 1]["inst"] or (ops[n]["op"] == "step" and ops[n + 1]["op"] == "step"))]
+                ]
         for n in cand[:2] if rng.random() < 0.5 else cand[-1:]:
             if not ops[n - 1].get("pair") if n else True:
                 ops[n] = dict(ops[n], pair={"kind": "random", "seed": rng.randrange(2**32), "p": rng.choice([0.02, 0.05, 0.2])})
@@ -270,8 +270,7 @@ def _run(case, crash, log, res):
             o2 = ops[n]
             if o["op"] not in ("step", "steps") or o2["op"] not in ("step", "steps") or o["inst"] < 0 or o2["inst"] < 0:
                 return False        # (a shrunk history may have lost the partner)
-            if o["inst"] == o2["inst"] and not (o["op"] == "step" and o2["op"] == "step"):
-                return False
+
             if crash and (k == n or (crash.get("fault") and k == n + 1)):
                 return False        # the process cannot be lost "between" two requests that are in flight together
             if k2_ is not None and k2_ == n:
@@ -537,7 +536,7 @@ def execute(case):
 
     def same_inst_pair(n, o):
         return (o.get("pair") and n + 1 <= len(ops) and ops[n]["inst"] == o["inst"] and o["inst"] >= 0
-                and o["op"] == "step" and ops[n]["op"] == "step" and n + 1 <= k
+                and o["op"] in ("step", "steps") and ops[n]["op"] in ("step", "steps") and n + 1 <= k
                 and not (fault is not None and k == n + 1) and crash.get("k2") != n)
     for n, o in enumerate(ops, start=1):
         if same_inst_pair(n, o):
